@@ -78,7 +78,8 @@ fn gone_cause(c: &RefCache, ty: &Name, inst: &Name, was_resolved: bool, t_report
             })
             .max()
             .unwrap_or(t);
-        let solid_then = |e: &CEntry| e.received_at <= e_addr && e_addr + 1000 < e.expires_at && !e.goodbye;
+        // (a copy that arrives in the very millisecond of the expiry may be read after the eviction ran)
+        let solid_then = |e: &CEntry| e.received_at < e_addr && e_addr + 1000 < e.expires_at && !e.goodbye;
         let ptr_solid = c.entries.iter().any(|e| e.rtype == T_PTR && e.name == *ty && wire::ptr_target_rdata(&e.rdata).is_some_and(|n| n == *inst) && solid_then(e));
         let srv_solid = live_srvs.iter().any(|s| solid_then(s));
         if !any_addr && ptr_solid && srv_solid {
